@@ -124,7 +124,9 @@ fn table_len(t: &KademliaRoutingTable) -> usize {
 // (thorough only: Kani's contract instrumentation (goto-instrument DFCC) takes ~12 min on this
 // crate even for this 32-byte loop; the quick tier proves the same postcondition with
 // `c02_distance_is_xor` below.)
-// @verif property=C02 class=complete fns=DhtKey::distance tier=thorough panic=violation
+// (parked: on the current crate goto-instrument's contract instrumentation runs out of memory for this harness -- Kani reports
+// exit_status out_of_memory; the postcondition itself is proved in both tiers by `c02_distance_is_xor` below)
+// @verif property=C02 class=complete fns=DhtKey::distance tier=parked panic=violation
 #[kani::proof_for_contract(DhtKey::distance)]
 #[kani::unwind(33)]
 fn c02_distance_contract() {
